@@ -70,7 +70,13 @@ def find_form(ctx, h):
         return None
     call, r = cands[0]
     body = apply_closure(r[2][1], (("elem", ("dummy",)),))
-    return {"rng": r[2][0], "body": body, "call": call, "slot": ("field", ("variant", call, "Some"), "0")}
+    rng = r[2][0]
+    if rng[0] == "map" and rng[2][0] == "closure":
+        # `(first..end).map(|x| x as u64).find(..)`: positions of the same range in another integer type
+        cb = apply_closure(rng[2], (("elem", ("dummy",)),))
+        if cb == ("elem", ("dummy",)) or (cb[0] == "cast" and cb[2] == ("elem", ("dummy",))):
+            rng = rng[1]
+    return {"rng": rng, "body": body, "call": call, "slot": ("field", ("variant", call, "Some"), "0")}
 
 
 def run(ctx):
@@ -137,23 +143,35 @@ def run(ctx):
               "an Err path of insert_internal changes n_elements")
 
     # ---- R14-first-insert --------------------------------------------------------------
-    first = None
-    for bi in ii.rpo():
-        t = ii.blocks[bi].term
-        if t.k == "call":
-            first = (bi, t)
-            break
-    okf = False
-    if first and first[1].callee_name() == "write_to_bucket":
-        tb = TermBuilder(ii, prog)
-        a = [tb.operand(x, first[0], len(ii.blocks[first[0]].stmts)) for x in first[1].args]
-        okf = a[1][:2] == ("param", 3) and a[2][:2] == ("param", 2) and first[0] == 0
-        # success leads to Ok
-        if okf:
-            okf = all(p.ret == "Ok" for p in PathEnumerator(ii, prog, ctx.summ).paths()
-                      if p.exit_kind == "return" and p.events and p.events[0]["kind"] == "call" and p.events[0]["ret"] == "true")
-    ctx.check(okf, "R14-first-insert", ii.key, ii, "first action is write_to_bucket(i1, f); success returns Ok",
-              "insert_internal does not start with an unconditional placement attempt in bucket i1 that returns Ok on success")
+    # on every path: the first thing that touches the table is a direct placement attempt in bucket i1 (the first of the two
+    # candidates); a successful attempt ends the call with Ok; nothing is evicted before both direct attempts have failed
+    tb = TermBuilder(ii, prog)
+    i1p, i2p = ("param", 3, "i1"), ("param", 4, "i2")
+    probs = []
+    n_first = 0
+    for p in PathEnumerator(ii, prog, ctx.summ).paths():
+        if p.exit_kind != "return":
+            continue
+        seq = []
+        for e in p.events:
+            if e["kind"] == "call" and e["name"] == "write_to_bucket":
+                seq.append(("try", e))
+            elif e["kind"] == "write" and e["root"] == SELF and self_field(e) == "table" and e["how"] != "borrow" and not e.get("via"):
+                seq.append(("evict", e))
+        if not seq:
+            probs.append("a path returns without attempting a placement")
+            continue
+        n_first += 1
+        k0, e0 = seq[0]
+        if k0 != "try" or e0["args"][1] not in (i1p, ("elem", ("array", (i1p, i2p)))) or e0["args"][2][:2] != ("param", 2):
+            probs.append("the first table access is not write_to_bucket(i1, f)")
+        elif e0["ret"] == "true" and (p.ret != "Ok" or len(seq) != 1):
+            probs.append("a successful first placement does not end the call with Ok")
+        ev_at = [n for n, (k_, _) in enumerate(seq) if k_ == "evict"]
+        if ev_at and not (ev_at[0] >= 2 and all(k_ == "try" and e_["ret"] == "false" for k_, e_ in seq[:2])):
+            probs.append("a slot is overwritten before both direct placements have failed")
+    ctx.check(not probs and n_first >= 3, "R14-first-insert", ii.key, ii, "first action is write_to_bucket(i1, f); success returns Ok; eviction only after both direct attempts failed",
+              "; ".join(sorted(set(probs))[:2]) or "fewer than three placement paths")
 
     delete_rules(ctx, dele)
     helper_rules(ctx, wtb, hib, rfb, q_needed=True)
@@ -244,7 +262,9 @@ def helper_rules(ctx, wtb, hib, rfb, q_needed=True):
                 pe = PathEnumerator(h, prog, ctx.summ, max_back=1)
                 fp = [p for p in pe.paths() if p.exit_kind == "return" and p.ret == "false"]
                 disc = ("call", "discriminant", (ff["call"],))
-                okf = bool(fp) and all(any(e["kind"] == "branch" and e.get("cond") == disc and e["value"] == 0 for e in p.events) for p in fp)
+                finder = ff["call"][1]
+                okf = bool(fp) and all(any((e["kind"] == "branch" and e.get("cond") == disc and (e["value"] == 0 or (e["value"] == "otherwise" and tuple(e.get("arm_values", ())) == (1,))))
+                                           or (e["kind"] == "call" and e["callee"] == finder and e["ret"] == "None") for e in p.events) for p in fp)
             ctx.check(okf, "R14-full-scan", h.key, h, "`find` over the whole slot range: false only when it found nothing",
                       "%s answers false although `find` returned a slot" % h.name)
             continue
